@@ -50,10 +50,8 @@ fn fix_ident_conflicts(sig: &mut syn::Signature) -> ParamStatus {
                     param_ident.subpat = None;
 
                     if param_ident.ident == fn_ident_string {
-                        param_ident.ident = syn::Ident::new(
-                            &format!("{}_", param_ident.ident),
-                            param_ident.ident.span(),
-                        );
+                        // (`format_ident!` also copes with raw identifiers: `r#type` -> `type_`)
+                        param_ident.ident = quote::format_ident!("{}_", param_ident.ident);
                     }
 
                     ParamStatus::Ok
